@@ -62,7 +62,11 @@ fn library(tsg: &str, src: &str, lazy: bool, globals: &[(String, String)]) -> Li
     };
     lib.load_ok = true;
     let tree = parse_python(src);
-    lib.source_has_errors = !ParseError::all(&tree).is_empty();
+    // the harness's own recursive walk (not parse_error.rs): does the tree contain an ERROR or MISSING node?
+    let mut flagged = Vec::new();
+    crate::props::c18::expected_outermost(tree.root_node(), &mut flagged);
+    lib.source_has_errors = !flagged.is_empty();
+    let _ = ParseError::all(&tree);
     let functions = Functions::stdlib();
     let mut gl = Variables::new();
     for (k, v) in globals {
@@ -105,7 +109,10 @@ pub fn run(rep: &mut Report, tier: &str, seed: u64) {
             tsg = tsg.replacen("node ", "nodde ", 1); // rejected file
         }
         let base = python::gen_small_source(&mut r);
-        let src = if pi % 4 == 3 { python::inject_faults(&mut r, &base, 1) } else { base };
+        // sources with syntax errors: random damage, and sources whose ONLY fault is a MISSING token or node
+        // (error recovery inserted a zero-width node; there is no ERROR node)
+        const MISSING_ONLY: &[&str] = &["def f(:\n    pass\n", "def f(x=1:\n    pass\n", "for x in :\n    pass\n", "x = [1, 2\n", "f(1, 2\n", "class A(B:\n    pass\n", "x = {1: 2\n"];
+        let src = if pi % 8 == 7 { format!("{}{}", r.pick(MISSING_ONLY), if r.chance(1, 2) { base.as_str() } else { "" }) } else if pi % 4 == 3 { python::inject_faults(&mut r, &base, 1) } else { base };
         let tsg_path = format!("{}/rules.tsg", work);
         let src_path = format!("{}/source.py", work);
         std::fs::write(&tsg_path, &tsg).unwrap();
